@@ -31,8 +31,10 @@ pub fn arb_char() -> BoxedStrategy<char> {
 /// small pool of words so that equal strings, prefixes and case variants collide
 const WORDS: &[&str] = &[
     "", "a", "A", "b", "ab", "aB", "AB", "abc", "k", "K", "key", "Key", "KEY", "k1", "k2", "name", "Name",
-    "true", "TRUE", "false", "null", "0", "1", "-1", "12", "1.5", "a\u{0}", "a\u{1}", "a\u{1}\u{1}", "é",
+    "true", "TRUE", "false", "null", "0", "1", "-1", "12", "1.5", "a\u{0}", "a\u{1}", "a\u{1}\u{1}", "é", "c", "bc",
     "É", "测试", "💎", "a b", "x.y", "\"q\"", "\\", "\n",
+    // literal backslash sequences that look like escapes (what the parser keeps for unpaired surrogates)
+    "\\ud83d\\ude00", "\\uDC00", "\\u0041", "\\n", "\\\"", "\\u{d800}",
 ];
 
 pub fn arb_string() -> BoxedStrategy<String> {
@@ -265,7 +267,11 @@ fn small_leaf(i: usize, seed: u16) -> M {
 /// that shrinking it is cheap
 pub fn big_doc(kind: u8, size_sel: u8, seed: u16, level: u8) -> M {
     let sizes = if level >= 2 { BIG_SIZES_2 } else { BIG_SIZES_1 };
-    let n = sizes[size_sel as usize % sizes.len()];
+    let mut n = sizes[size_sel as usize % sizes.len()];
+    // level 3: a payload just over 2^24 bytes (entry lengths that need more than 24 bits)
+    if level >= 3 && matches!(kind % 9, 2 | 4 | 5) && size_sel % 32 == 0 {
+        n = (1 << 24) + 5;
+    }
     match kind % 9 {
         // wide array of mixed small scalars
         0 => M::Arr((0..n).map(|i| small_leaf(i, seed)).collect()),
@@ -333,9 +339,51 @@ pub fn arb_tree(p: TreeParams) -> BoxedStrategy<M> {
             4 => vec((arb_key(), inner.clone()), 0..=fan).prop_map(|kv| M::Obj(kv.into_iter().collect())),
             // equal siblings
             1 => (inner.clone(), 1usize..4).prop_map(|(x, n)| M::Arr(vec![x; n])),
+            // adjacent siblings that are equal as values but not identical (re-typed numbers)
+            1 => (inner.clone(), any::<u16>(), any::<bool>()).prop_map(|(x, k, as_obj)| {
+                let y = retype_all(&x, k);
+                if as_obj {
+                    M::Obj([("max".to_string(), x), ("min".to_string(), y)].into_iter().collect())
+                } else {
+                    M::Arr(vec![x, y])
+                }
+            }),
+            // adjacent objects with the same number of keys whose keys concatenate to the same
+            // bytes but split differently ({"a","bc"} / {"ab","c"})
+            1 => (inner.clone(), inner.clone(), any::<u16>()).prop_map(|(v1, v2, k)| {
+                let (o1, o2) = split_key_objects(k, &v1, &v2);
+                M::Arr(vec![o1, o2])
+            }),
         ]
     })
     .boxed()
+}
+
+/// every number re-typed (where another representation holds the same value)
+pub fn retype_all(m: &M, k: u16) -> M {
+    match m {
+        M::Num(n) => M::Num(retype(*n, k)),
+        M::Arr(a) => M::Arr(a.iter().enumerate().map(|(i, x)| retype_all(x, k.wrapping_add(i as u16))).collect()),
+        M::Obj(o) => M::Obj(o.iter().enumerate().map(|(i, (kk, v))| (kk.clone(), retype_all(v, k.wrapping_add(i as u16)))).collect()),
+        x => x.clone(),
+    }
+}
+
+/// two objects, same key count, same concatenated sorted keys, different key boundaries
+pub fn split_key_objects(k: u16, v1: &M, v2: &M) -> (M, M) {
+    let sets: [([&str; 2], [&str; 2]); 5] = [
+        (["a", "bc"], ["ab", "c"]),
+        (["k", "ke"], ["kk", "e"]),
+        (["", "ab"], ["a", "b"]),
+        (["A", "Aa"], ["AA", "a"]),
+        (["é", "éz"], ["éé", "z"]),
+    ];
+    let (x, y) = sets[k as usize % sets.len()];
+    let mk = |keys: [&str; 2], swap: bool| {
+        let (a, b) = if swap { (v2, v1) } else { (v1, v2) };
+        M::Obj([(keys[0].to_string(), a.clone()), (keys[1].to_string(), b.clone())].into_iter().collect())
+    };
+    (mk(x, false), mk(y, k & 0x100 != 0))
 }
 
 /// a document that is a container at top level most of the time
